@@ -369,7 +369,7 @@ def run(ctx):
                          'single deviation of cycle, semicoarsening, '
                          'linerelaxation, clevel, nu_*, maxit, residual '
                          'script); non-trivial = more than one level',
-                    time_cap=cap or (150 if q else 900), chunksize=64)
+                    time_cap=cap or (600 if q else 1800), chunksize=64)
     if ctx.wants('pairs'):
         shp = [(2, 2, 2), (3, 3, 3), (4, 4, 4), (5, 5, 5), (6, 6, 6),
                (8, 8, 8), (12, 12, 12), (16, 16, 16), (8, 2, 2), (2, 16, 4),
@@ -380,7 +380,7 @@ def run(ctx):
         cs = [{'shape': s, 'cfg': d} for d in pd for s in shp]
         ctx.explore('pairs-of-deviations', FN, cs, engine='E1+E4',
                     rule='all pairs of deviations on representative shapes',
-                    time_cap=cap or (90 if q else 1200), chunksize=64)
+                    time_cap=cap or (360 if q else 2400), chunksize=64)
     if ctx.wants('real'):
         rng_ = range(2, 5) if q else range(2, 7)
         devs = [{}, {'cycle': 'V'}, {'cycle': 'W'}, {'semicoarsening': True},
@@ -394,7 +394,7 @@ def run(ctx):
         ctx.explore('real-numerics-conformance', FN, cs, engine='E1',
                     rule='same configurations with the real kernels: traces '
                          'must equal the stubbed ones and the reference',
-                    time_cap=cap or (90 if q else 900))
+                    time_cap=cap or (360 if q else 1800))
     if not q and ctx.wants('big'):
         cs = [{'shape': s, 'cfg': {'cycle': cy}}
               for cy in ('F', 'V', 'W')
